@@ -79,6 +79,15 @@ KNOWN_PROGRAMS = [
 ]
 
 
+# programs run in every tier whatever the sampling: shapes that seeded changes showed to be easy to miss
+ALWAYS_PROGRAMS = [
+    # the star captured as the default of a nested parameter of the SAME name, then forwarded
+    ([_s('taint', 'top', tgt='K', how='default_capture'), _s('fwd', 'top', 'none', 'own')], [{'tkey': 't', 'same': True}, {'w': 1, 'n': 0, 'names': []}]),
+    ([_s('taint', 'top', tgt='A', how='default_capture'), _s('fwd', 'top', 'own', 'none')], [{'tkey': 't', 'same': True}, {'w': 1, 'n': 0, 'names': []}]),
+    ([_s('taint', 'top', tgt='K', how='default_capture'), _s('fwd', 'top', 'own', 'own')], [{'tkey': 't', 'same': False}, {'w': 1, 'n': 0, 'names': []}]),
+]
+
+
 def prog_gen(stmts, maxlen, sample, seed, frac=1.0, only=None):
     def gen(shard, nshards):
         rnd = random.Random(seed)
@@ -88,6 +97,10 @@ def prog_gen(stmts, maxlen, sample, seed, frac=1.0, only=None):
                 ws = [autofwd.callee_shapes(nm)[0] for nm in autofwd.CALLEE_NAMES]
                 choice = [{'w': 1, 'n': 0, 'names': []}, {'tkey': 't'}, {'w': 2, 'n': 0, 'names': []}]
                 yield autofwd.program_event('af/known-%d' % j, prog, autofwd.OUTERS[1], ws, choice)
+            for j, (prog, choice) in enumerate(ALWAYS_PROGRAMS):
+                for oi in range(len(autofwd.OUTERS)):
+                    ws = [autofwd.callee_shapes(nm)[0] for nm in autofwd.CALLEE_NAMES]
+                    yield autofwd.program_event('af/always-%d-%d' % (j, oi), prog, autofwd.OUTERS[oi], ws, choice)
         for prog in programs(stmts, maxlen, sample, seed):
             if not interesting(prog):
                 continue
